@@ -130,8 +130,13 @@ def trashed_files_to_restore(input_read,  # type: InputRead
     try:
         sequences = parse_indexes(input_read.user_input,
                                   len(input_read.trashed_files))
-        file_to_restore = [input_read.trashed_files[index] for index in
-                           sequences.all_indexes()]
+        file_to_restore = []
+        already_selected = set()
+        for index in sequences.all_indexes():
+            # '0,0-1' names entry 0 twice: restore it once
+            if index not in already_selected:
+                already_selected.add(index)
+                file_to_restore.append(input_read.trashed_files[index])
         selected_files = SelectedFiles(file_to_restore, input_read.overwrite)
         return Right(selected_files)
     except InvalidEntry as e:
